@@ -363,8 +363,10 @@ pub fn run(ctx: &Ctx) {
     ctx.assume("reference decoder (OpenSSL) defines the authenticated prefix");
     small_block(ctx);
     production_block(ctx);
-    cli_block(ctx);
-    cli_closed_sink(ctx);
+    if !crate::lib_only() {
+        cli_block(ctx);
+        cli_closed_sink(ctx);
+    }
     ctx.require("cli: plaintext sink closed", 3);
     ctx.require("write events judged", 1000);
     ctx.require("failing runs with >=1 chunk already released", 50);
